@@ -58,6 +58,8 @@ def files():
     G.add_method(s1, "UseNested", M + "UseNestedReq", M + "UsesNested", http=("get", "/v1/{name=n/*}"))
     s2 = G.add_service(fd, "S2")
     G.add_method(s2, "Other", M + "OtherReq", M + "C", http=("get", "/v1/{name=o/*}"))
+    # an rpc of the second service that shares its NAME with a listed rpc of the first (Get / List on every service)
+    G.add_method(s2, "GetA", M + "OtherReq", M + "G", http=("get", "/v1/{name=o/*}:a"))
     return [k, rs, fd]
 
 
@@ -121,7 +123,7 @@ def scenarios():
     from vf import genlab as G
     failures, cases = [], 0
     fds = files()
-    all_methods = ["acme.lab.v1.S1.GetA", "acme.lab.v1.S1.ListLonely", "acme.lab.v1.S1.Long", "acme.lab.v1.S1.UseNested", "acme.lab.v1.S2.Other"]
+    all_methods = ["acme.lab.v1.S1.GetA", "acme.lab.v1.S1.ListLonely", "acme.lab.v1.S1.Long", "acme.lab.v1.S1.UseNested", "acme.lab.v1.S2.Other", "acme.lab.v1.S2.GetA"]
     full, _ = G.build_api(files(), "autogen-snippets=false")
     dep_before = {k: (sorted(v.all_messages), sorted(v.all_enums)) for k, v in full.all_protos.items() if k not in full.protos}
     subsets = [[m] for m in all_methods] + [[all_methods[0], all_methods[4]], [all_methods[1], all_methods[2]], all_methods]
@@ -273,4 +275,42 @@ def extended_scenarios():
                              "polled": sorted(polled), "defined_polling_candidates": sorted(d for d in defined if "get" in d)})
     except Exception as e:     # noqa
         failures.append({"internal": True, "what": "generation failed", "error": repr(e)[:300]})
+    return {"cases": cases, "failures": failures}
+
+
+def subpackage_selective():
+    """Listed rpcs of a service declared in a sub-package of the API are kept (and only they), in pruning and in internal mode."""
+    from vf import genlab as G
+    T = G.T
+    failures, cases = [], 0
+
+    def fs():
+        root = G.new_file("acme/sel/v1/common.proto", "acme.sel.v1")
+        G.add_message(root, "Req", [G.F("name", 1, T.TYPE_STRING)])
+        G.add_message(root, "Record", [G.F("x", 1, T.TYPE_STRING)])
+        G.add_message(root, "Unused", [G.F("y", 1, T.TYPE_STRING)])
+        sub = G.new_file("acme/sel/v1/archive/archive.proto", "acme.sel.v1.archive", deps=G.STD_DEPS + ["acme/sel/v1/common.proto"])
+        G.add_message(sub, "ListReq", [G.F("parent", 1, T.TYPE_STRING)])
+        sv = G.add_service(sub, "Archive")
+        G.add_method(sv, "GetRecord", ".acme.sel.v1.Req", ".acme.sel.v1.Record", http=("get", "/v1/{name=r/*}"))
+        G.add_method(sv, "ListRecords", ".acme.sel.v1.archive.ListReq", ".acme.sel.v1.Record", http=("get", "/v1/{parent=p/*}/records"))
+        return [root, sub]
+    for internal in (False, True):
+        cases += 1
+        yaml = {"type": "google.api.Service", "config_version": 3, "name": "sel.example.com", "publishing": {"library_settings": [
+            {"version": "acme.sel.v1", "python_settings": {"common": {"selective_gapic_generation": {
+                "methods": ["acme.sel.v1.archive.Archive.GetRecord"], "generate_omitted_as_internal": internal}}}}]}}
+        try:
+            api, _ = G.build_api(fs(), "autogen-snippets=false", service_yaml=yaml)
+        except Exception as e:     # noqa
+            failures.append({"internal": internal, "what": "a listed rpc of a sub-package service is rejected / the API cannot be built", "error": repr(e)[:300]})
+            continue
+        ms = {m.name: m for s_ in api.services.values() for m in s_.methods.values()}
+        if internal:
+            if set(ms) != {"GetRecord", "ListRecords"} or ms["GetRecord"].is_internal or not ms["ListRecords"].is_internal:
+                failures.append({"internal": True, "what": "internal marking of the rpcs of a sub-package service", "got": {k: v.is_internal for k, v in ms.items()}})
+        else:
+            names = _names(api)
+            if set(ms) != {"GetRecord"} or "acme.sel.v1.Unused" in names or "acme.sel.v1.archive.ListReq" in names or "acme.sel.v1.Record" not in names:
+                failures.append({"internal": False, "what": "kept rpcs / types for a listed rpc of a sub-package service", "rpcs": sorted(ms), "types": sorted(names)})
     return {"cases": cases, "failures": failures}
